@@ -480,3 +480,68 @@ def nearbyint_emul(ty, a):
         r = T.sel(T.fcmp('olt', v, t2n), d, v)
         out.append(I('(|x|+2^%d)-2^%d with sign restored' % (mant, mant), T.xor(T.cat(T.const(ty.bits - 1, 0), T.topbit(a)), r)))
     return out
+
+
+# ---------------------------------------------------------------- round (C08), is_flint / is_even / is_odd (C02)
+def _fk(ty, f32bits, f64bits):
+    return K(ty, f32bits if ty.bits == 32 else f64bits)
+
+
+def round_spec(ty, a):
+    """reviewed algorithm (class I), composed over every accepted form of ceil:
+         v = |x|; c = ceil(v); r = (c - 0.5 > v) ? c - 1 : c;  result = v > 2^(mant+1) ? x : copysign(r, x)
+       For v below 2^mant, c - 0.5 and c - 1 are exact, so r = floor(v) when frac(v) < 0.5 and ceil(v) otherwise: halves
+       go away from zero.  From 2^mant on v is an integer, c == v, and c - 0.5 (rounded) is <= v, so r == v.  The guard
+       constant may be any 2^k, k >= mant (values beyond are integers and returned unchanged)."""
+    mant = 23 if ty.bits == 32 else 52
+    v = T.fabs(a)
+    mhalf = _fk(ty, 0xbf000000, 0xbfe0000000000000)
+    half = _fk(ty, 0x3f000000, 0x3fe0000000000000)
+    one = fone(ty)
+    mone = T.fneg(one)
+    out = []
+    seen = set()
+    for (lab, k_, c) in rounding('ceil')(ty, v):
+        for cm_half in (_fadd(ty, c, mhalf), _fsub(ty, c, half)):
+            for cm_one in (_fadd(ty, c, mone), _fsub(ty, c, one)):
+                r = T.sel(T.fcmp('ogt', cm_half, v), cm_one, c)
+                for k in range(mant, mant + 3):
+                    t = T.sel(T.fcmp('ogt', v, _f2k(ty, k)), a, T.copysign(r, a))
+                    key = T.canon(t)
+                    if key in seen:
+                        continue
+                    seen.add(key)
+                    out.append(I('copysign((ceil|x| - 0.5 > |x|) ? ceil|x| - 1 : ceil|x|, x), identity beyond 2^%d; ceil = %s' % (k, lab), t))
+    return out
+
+
+def _is_flint_forms(ty, x, tag):
+    """is_flint(x): frac = isnan(x - x) ? NaN : x - trunc(x);  frac == 0   (class I, composed over every accepted
+    form of trunc).  x - x is NaN exactly for x = NaN or +-inf, so those are rejected; for finite x, x - trunc(x) is
+    exact and is zero iff x is integer-valued."""
+    out = []
+    zero = K(ty, 0)
+    d = _fsub(ty, x, x)
+    for nan in nan_consts(ty):
+        for (lab, k_, t) in rounding('trunc')(ty, x):
+            frac = T.sel(T.fcmp('uno', d, d), nan, _fsub(ty, x, t))
+            out.append(I('%s: (isnan(x-x) ? NaN : x - trunc(x)) == 0; trunc = %s' % (tag, lab), T.fcmp('oeq', frac, zero)))
+    return out
+
+
+def is_flint_spec(ty, a):
+    return _is_flint_forms(ty, a, 'is_flint(x)')
+
+
+def is_even_spec(ty, a):
+    half = _fk(ty, 0x3f000000, 0x3fe0000000000000)
+    return _is_flint_forms(ty, _fmul(ty, a, half), 'is_even(x) = is_flint(x * 0.5)')
+
+
+def is_odd_spec(ty, a):
+    half = _fk(ty, 0x3f000000, 0x3fe0000000000000)
+    one = fone(ty)
+    out = []
+    for xm1 in (_fadd(ty, a, T.fneg(one)), _fsub(ty, a, one)):
+        out += _is_flint_forms(ty, _fmul(ty, xm1, half), 'is_odd(x) = is_even(x - 1)')
+    return out
